@@ -8,6 +8,7 @@ import (
 	"sort"
 	"strings"
 	"sync"
+	"sync/atomic"
 	"testing"
 	"time"
 
@@ -74,14 +75,31 @@ type UpdPlan struct {
 	Ignore bool   `json:"ignore"`
 }
 
-// C09Case is one registration of a plugin against a runtime holding the planned state.
-type C09Case struct {
+// Round is one registration of the plugin against a runtime holding the planned state.
+type Round struct {
 	Pods    ListPlan  `json:"pods"`
 	Ctrs    ListPlan  `json:"ctrs"`
 	Updates []UpdPlan `json:"updates,omitempty"`
 	// RuntimeFails: the runtime's SyncFn reports failure after the plugin synchronized
 	// (the transfer itself is still judged); the plugin must not be activated.
 	RuntimeFails bool `json:"runtime_fails,omitempty"`
+	// AbortAfter k > 0: the runtime gives up in the middle of a split transfer - the context
+	// it passed to the NRI sync callback is cancelled once the stub has accepted the k-th
+	// "more" chunk (before the reply to that chunk leaves the plugin, so no chunk is in
+	// flight). Without effect when the transfer has fewer than k "more" chunks.
+	AbortAfter int `json:"abort_after,omitempty"`
+}
+
+// maxRounds bounds the registrations of one case.
+const maxRounds = 3
+
+// C09Case is a history of 1..3 registrations (rounds) of ONE stub instance: the first round
+// inline (the format of single-registration cases is unchanged), later rounds in Next. Each
+// round has its own state; between rounds the session is ended (by the adaptation when the
+// synchronization failed, else by Stop) and the same stub calls Start again.
+type C09Case struct {
+	Round
+	Next []Round `json:"next,omitempty"`
 }
 
 func (l ListPlan) sizes(max int) ([]int, error) {
@@ -121,11 +139,11 @@ var padSrc = func() string {
 
 func pad(i, n int) string { off := i % 26; return padSrc[off : off+n] }
 
-func buildPods(l ListPlan, sz []int) []*api.PodSandbox {
+func buildPods(l ListPlan, sz []int, tag string) []*api.PodSandbox {
 	out := make([]*api.PodSandbox, len(sz))
 	for i, n := range sz {
 		p := &api.PodSandbox{
-			Id:        fmt.Sprintf("p%04d", i),
+			Id:        fmt.Sprintf("%sp%04d", tag, i),
 			Name:      fmt.Sprintf("pod-%d", i),
 			Uid:       fmt.Sprintf("uid-%d", i),
 			Namespace: "ns",
@@ -143,11 +161,11 @@ func buildPods(l ListPlan, sz []int) []*api.PodSandbox {
 	return out
 }
 
-func buildCtrs(l ListPlan, sz []int, pods []*api.PodSandbox) []*api.Container {
+func buildCtrs(l ListPlan, sz []int, pods []*api.PodSandbox, tag string) []*api.Container {
 	out := make([]*api.Container, len(sz))
 	for i, n := range sz {
 		c := &api.Container{
-			Id:    fmt.Sprintf("c%05d", i),
+			Id:    fmt.Sprintf("%sc%05d", tag, i),
 			Name:  fmt.Sprintf("ctr-%d", i),
 			State: api.ContainerState_CONTAINER_RUNNING,
 		}
@@ -394,12 +412,80 @@ var (
 	anyD     = []string{"tiny", "uniform", "fewhuge", "nearlimit", "explicit"}
 )
 
+// genC09 draws a history of 1..3 registrations of one stub. Every round but the last is
+// steered towards ending in the middle of a split transfer (the runtime gives up after k
+// chunks, or the tail of the state cannot be sent at all), because that is what leaves
+// something behind in the stub; the last round is unconstrained.
 func genC09(t *rapid.T) C09Case {
 	var c C09Case
+	n := rapid.SampledFrom([]int{1, 1, 2, 2, 3}).Draw(t, "rounds")
+	for i := 0; i < n; i++ {
+		kind := "any"
+		if i < n-1 {
+			kind = rapid.SampledFrom([]string{"abort", "tail", "any"}).Draw(t, "round-kind")
+		}
+		r := genRound(t, kind)
+		if i == 0 {
+			c.Round = r
+		} else {
+			c.Next = append(c.Next, r)
+		}
+	}
+	return c
+}
+
+// genTail draws a state whose head can be sent in chunks and whose tail cannot: many small
+// objects and, in the second half of one list, a block of 2..6 adjacent objects that
+// together exceed the message limit (class (c): refused after chunks were accepted).
+func genTail(t *rapid.T) (ListPlan, ListPlan) {
+	k := rapid.IntRange(2, 6).Draw(t, "tail-k")
+	size := rapid.IntRange(msgMax/k+100000, maxPad).Draw(t, "tail-size")
+	n := rapid.IntRange(12, 200).Draw(t, "tail-n")
+	small := rapid.IntRange(20000, 200000).Draw(t, "tail-small")
+	if small > (maxTotal-k*size)/n {
+		small = (maxTotal - k*size) / n
+	}
+	start := rapid.IntRange(n/2, n-k).Draw(t, "tail-start")
+	heavy := ListPlan{N: n, Dist: "tailblock", Base: small, Field: rapid.IntRange(0, 3).Draw(t, "tail-field")}
+	for i := 0; i < k; i++ {
+		heavy.Over = append(heavy.Over, At{I: start + i, Size: size})
+	}
+	other := genList(t, "tail-other", rapid.IntRange(0, 20).Draw(t, "tail-other-n"), 20, rapid.IntRange(0, 100<<10).Draw(t, "tail-light"), lightD)
+	if rapid.IntRange(0, 3).Draw(t, "tail-in-pods") == 0 {
+		return heavy, other
+	}
+	return other, heavy
+}
+
+func genRound(t *rapid.T, kind string) Round {
+	var c Round
 	np := genCount(t, "pods", maxPods, podEdges)
 	nc := genCount(t, "ctrs", maxCtrs, ctrEdges)
 	mode := rapid.SampledFrom([]string{"fill", "fill", "fill", "fill", "fill", "fill", "floor", "floor", "free", "free", "small"}).Draw(t, "mode")
+	switch kind {
+	case "abort":
+		mode = "abortfill"
+		c.AbortAfter = rapid.IntRange(1, 3).Draw(t, "abort-after")
+	case "tail":
+		mode = "tail"
+	default:
+		if rapid.IntRange(0, 7).Draw(t, "abort") == 0 {
+			c.AbortAfter = rapid.IntRange(1, 4).Draw(t, "abort-after")
+		}
+	}
 	switch mode {
+	case "tail":
+		c.Pods, c.Ctrs = genTail(t)
+	case "abortfill": // class (b), at least three messages: 32+ equal objects, 9..24 MB
+		total := rapid.IntRange(9<<20, 24<<20).Draw(t, "total")
+		light := genList(t, "light", rapid.IntRange(0, 20).Draw(t, "light-n"), 20, rapid.IntRange(0, 100<<10).Draw(t, "light-bytes"), lightD)
+		if rapid.IntRange(0, 3).Draw(t, "heavy-pods") == 0 {
+			n := rapid.IntRange(32, maxPods).Draw(t, "heavy-n")
+			c.Pods, c.Ctrs = ListPlan{N: n, Dist: "uniform", Base: total / n, Field: rapid.IntRange(0, 3).Draw(t, "pods-field")}, light
+		} else {
+			n := rapid.IntRange(32, maxCtrs).Draw(t, "heavy-n")
+			c.Pods, c.Ctrs = light, ListPlan{N: n, Dist: "uniform", Base: total / n, Field: rapid.IntRange(0, 3).Draw(t, "ctrs-field")}
+		}
 	case "small": // class (a): everything fits one message
 		total := rapid.IntRange(0, 3<<20).Draw(t, "total")
 		share := rapid.IntRange(0, 100).Draw(t, "pod-share")
@@ -487,16 +573,54 @@ type observer struct {
 	limitC  int
 	stuck   string
 	onStuck func()
-	calls   int    // invocations of the plugin's Synchronize handler
-	diff    string // first difference between a delivered state and the runtime's
-	gotP    int
-	gotC    int
+	// the round's state and answer
+	pods []*api.PodSandbox
+	ctrs []*api.Container
+	want []*api.ContainerUpdate
+	// runtime-side abort (Round.AbortAfter)
+	abortAfter int
+	moreDone   int // "more" chunks the stub has accepted (its handler returned without error)
+	abortedAt  int
+	onAbort    func()
+	roundDone  <-chan struct{}
+
+	calls int    // invocations of the plugin's Synchronize handler
+	diff  string // first difference between a delivered state and the runtime's
+	gotP  int
+	gotC  int
 }
 
 func (o *observer) intercept(ctx context.Context, um ttrpc.Unmarshaler, _ *ttrpc.UnaryServerInfo, m ttrpc.Method) (interface{}, error) {
-	return m(ctx, func(v interface{}) error {
+	more := false
+	resp, err := m(ctx, o.observe(um, &more))
+	if more && err == nil {
+		// the stub has accepted one more chunk of a split state
+		o.mu.Lock()
+		o.moreDone++
+		abort := o.abortAfter > 0 && o.moreDone == o.abortAfter && o.abortedAt == 0 && o.onAbort != nil
+		if abort {
+			o.abortedAt = o.moreDone
+		}
+		o.mu.Unlock()
+		if abort {
+			// The runtime gives up now: cancel its context and hold this chunk's reply until
+			// the runtime's SyncFn has returned, so that no further chunk is on its way when
+			// the connection goes down.
+			o.onAbort()
+			select {
+			case <-o.roundDone:
+			case <-time.After(15 * time.Second):
+			}
+		}
+	}
+	return resp, err
+}
+
+func (o *observer) observe(um ttrpc.Unmarshaler, more *bool) ttrpc.Unmarshaler {
+	return func(v interface{}) error {
 		err := um(v)
 		if req, ok := v.(*api.SynchronizeRequest); ok && err == nil {
+			*more = req.More
 			o.mu.Lock()
 			o.rpcs++
 			o.sumP += len(req.Pods)
@@ -525,7 +649,7 @@ func (o *observer) intercept(ctx context.Context, um ttrpc.Unmarshaler, _ *ttrpc
 			}
 		}
 		return err
-	})
+	}
 }
 
 // spinning reports how many trailing RPCs carried no object at all while announcing more.
@@ -591,20 +715,28 @@ func diffUpdates(want, got []*api.ContainerUpdate) string {
 // ---------------------------------------------------------------------------------------
 // run + oracle
 
-type history struct {
+type roundHistory struct {
+	Round     int     `json:"round"`
 	Shape     shape   `json:"shape"`
-	Plugin    string  `json:"plugin"`
 	Chunks    []Chunk `json:"chunks"`
 	RPCs      int     `json:"sync_rpcs"`
 	SentPods  int     `json:"rpc_pods_total"`
 	SentCtrs  int     `json:"rpc_ctrs_total"`
+	MoreDone  int     `json:"more_chunks_accepted"`
+	AbortedAt int     `json:"runtime_aborted_after_chunk,omitempty"`
 	Calls     int     `json:"handler_calls"`
 	GotPods   int     `json:"handler_pods"`
 	GotCtrs   int     `json:"handler_ctrs"`
+	StartErr  string  `json:"start_err,omitempty"`
 	SyncErr   string  `json:"sync_err,omitempty"`
 	Panic     string  `json:"panic,omitempty"`
 	ElapsedMs int64   `json:"sync_ms"`
 	Note      string  `json:"note,omitempty"`
+}
+
+type history struct {
+	Plugin string          `json:"plugin"`
+	Rounds []*roundHistory `json:"rounds"`
 }
 
 func runC09(c C09Case) ev.Outcome {
@@ -639,125 +771,236 @@ func bandOf(n int, edges []int) string {
 	return "more"
 }
 
+type roundSizes struct{ pods, ctrs []int }
+
+func (r Round) validate() (roundSizes, error) {
+	var rs roundSizes
+	var err error
+	if rs.pods, err = r.Pods.sizes(maxPods); err != nil {
+		return rs, err
+	}
+	if rs.ctrs, err = r.Ctrs.sizes(maxCtrs); err != nil {
+		return rs, err
+	}
+	total := 0
+	for _, s := range rs.pods {
+		total += s
+	}
+	for _, s := range rs.ctrs {
+		total += s
+	}
+	if total > maxTotalAny || len(r.Updates) > 64 || r.AbortAfter < 0 || r.AbortAfter > 64 {
+		return rs, fmt.Errorf("out of domain")
+	}
+	return rs, nil
+}
+
+// session is one stub instance that registers once per round of a case.
+type session struct {
+	f      *fixture
+	id     int
+	name   string
+	p      *fx.Plugin
+	cur    atomic.Pointer[observer] // the round in progress
+	starts int32                    // Start calls that got as far as a connection
+	hist   *history
+	// failedAfterChunks: an earlier round of this case ended in failure after the stub had
+	// accepted at least one "more" chunk.
+	failedAfterChunks bool
+}
+
+func (se *session) intercept(ctx context.Context, um ttrpc.Unmarshaler, info *ttrpc.UnaryServerInfo, m ttrpc.Method) (interface{}, error) {
+	if o := se.cur.Load(); o != nil {
+		return o.intercept(ctx, um, info, m)
+	}
+	return m(ctx, um)
+}
+
+// roundResult is what one round contributes to the case's outcome.
+type roundResult struct {
+	out        ev.Outcome // Fail set on a violation; Excluded set when the round could not be judged
+	timeClause bool
+	classes    []string
+	lenient    []string
+	nonTrivial bool
+}
+
 // runOnce executes the case. The second result is true when the outcome is a failure that
 // rests on elapsed time only (to be confirmed by re-execution).
 func runOnce(c C09Case) (ev.Outcome, bool) {
-	psz, err := c.Pods.sizes(maxPods)
-	if err != nil {
+	rounds := append([]Round{c.Round}, c.Next...)
+	if len(rounds) > maxRounds {
 		return ev.Outcome{Excluded: "out-of-domain"}, false
 	}
-	csz, err := c.Ctrs.sizes(maxCtrs)
-	if err != nil {
-		return ev.Outcome{Excluded: "out-of-domain"}, false
+	sizes := make([]roundSizes, len(rounds))
+	for i, r := range rounds {
+		rs, err := r.validate()
+		if err != nil {
+			return ev.Outcome{Excluded: "out-of-domain"}, false
+		}
+		sizes[i] = rs
 	}
-	total := 0
-	for _, s := range psz {
-		total += s
-	}
-	for _, s := range csz {
-		total += s
-	}
-	if total > maxTotalAny || len(c.Updates) > 64 {
-		return ev.Outcome{Excluded: "out-of-domain"}, false
-	}
-	pods := buildPods(c.Pods, psz)
-	ctrs := buildCtrs(c.Ctrs, csz, pods)
-	want := buildUpdates(c.Updates, ctrs)
-	sh := classify(pods, ctrs)
-	if sh.Class == "x" {
-		// "each individually transmissible" is the property's precondition
-		return ev.Outcome{Excluded: "object-too-big"}, false
-	}
-
 	f, err := getFixture()
 	if err != nil {
 		return ev.Outcome{Excluded: "fixture: " + err.Error(), Overloaded: true}, false
 	}
 	id := nextSeq()
-	name := fmt.Sprintf("sync%d", id)
-	hist := &history{Shape: sh, Plugin: name}
-	obs := &observer{limitP: 3*len(pods) + 50, limitC: 3*len(ctrs) + 50}
+	se := &session{f: f, id: id, name: fmt.Sprintf("sync%d", id)}
+	se.hist = &history{Plugin: se.name}
 
-	classes := []string{
+	// One plugin, one stub instance for all rounds. Its handlers judge against the round in
+	// progress.
+	p := &fx.Plugin{Name: se.name, Idx: "10"}
+	se.p = p
+	p.OnSynchronize = func(_ context.Context, gp []*api.PodSandbox, gc []*api.Container) ([]*api.ContainerUpdate, error) {
+		o := se.cur.Load()
+		if o == nil {
+			return nil, nil
+		}
+		d := diffState(o.pods, gp, o.ctrs, gc)
+		o.mu.Lock()
+		o.calls++
+		if o.calls == 1 || o.diff == "" {
+			o.diff, o.gotP, o.gotC = d, len(gp), len(gc)
+		}
+		o.mu.Unlock()
+		return o.want, nil
+	}
+	p.OnEvent = func(_ context.Context, _ api.Event, pod *api.PodSandbox, _ *api.Container) error {
+		if fx.IsProbe(pod) {
+			f.w.Seen(se.name)
+		}
+		return nil
+	}
+	if err := p.NewStub(f.r.Socket, nil, stub.WithTTRPCOptions(nil,
+		[]ttrpc.ServerOpt{ttrpc.WithUnaryServerInterceptor(se.intercept)})); err != nil {
+		return ev.Outcome{Excluded: "stub: " + err.Error(), Overloaded: true}, false
+	}
+	defer p.Stub.Stop()
+
+	classes := []string{fmt.Sprintf("rounds:%d", len(rounds))}
+	var lenient []string
+	nonTrivial := false
+	for i, r := range rounds {
+		rr := se.runRound(i, r, sizes[i])
+		classes = append(classes, rr.classes...)
+		lenient = append(lenient, rr.lenient...)
+		nonTrivial = nonTrivial || rr.nonTrivial
+		if rr.out.Fail != "" || rr.out.Excluded != "" {
+			rr.out.History = se.hist
+			rr.out.Classes = classes
+			rr.out.NonTrivial = nonTrivial
+			return rr.out, rr.timeClause
+		}
+	}
+	return ev.Outcome{NonTrivial: nonTrivial, Classes: append(classes, lenient...), Lenient: lenient}, false
+}
+
+// runRound registers the session's stub once against a runtime holding the round's state
+// and judges this registration against this state only.
+func (se *session) runRound(idx int, c Round, rs roundSizes) (rr roundResult) {
+	f := se.f
+	name := se.name
+	tag := ""
+	if idx > 0 {
+		tag = fmt.Sprintf("r%d-", idx+1)
+	}
+	pods := buildPods(c.Pods, rs.pods, tag)
+	ctrs := buildCtrs(c.Ctrs, rs.ctrs, pods, tag)
+	want := buildUpdates(c.Updates, ctrs)
+	sh := classify(pods, ctrs)
+	if sh.Class == "x" {
+		// "each individually transmissible" is the property's precondition
+		rr.out = ev.Outcome{Excluded: "object-too-big"}
+		return rr
+	}
+	hist := &roundHistory{Round: idx + 1, Shape: sh}
+	se.hist.Rounds = append(se.hist.Rounds, hist)
+	obs := &observer{limitP: 3*len(pods) + 50, limitC: 3*len(ctrs) + 50,
+		pods: pods, ctrs: ctrs, want: want, abortAfter: c.AbortAfter}
+
+	rr.nonTrivial = sh.Class != "a"
+	rr.classes = []string{
 		"class-" + sh.Class,
 		"pods:" + bandOf(len(pods), podEdges),
 		"ctrs:" + bandOf(len(ctrs), ctrEdges),
 		"pdist:" + strings.SplitN(c.Pods.Dist, "/", 2)[0],
 		"cdist:" + strings.SplitN(c.Ctrs.Dist, "/", 2)[0],
 	}
+	if idx > 0 {
+		rr.classes = append(rr.classes, "re-registration")
+	}
 	if sh.Class != "a" {
-		classes = append(classes, "split")
+		rr.classes = append(rr.classes, "split")
 	}
 	if c.RuntimeFails {
-		classes = append(classes, "runtime-fails")
+		rr.classes = append(rr.classes, "runtime-fails")
 	}
 	switch {
 	case sh.Whole < msgMax:
-		classes = append(classes, "bytes:<4M")
+		rr.classes = append(rr.classes, "bytes:<4M")
 	case sh.Whole < 12<<20:
-		classes = append(classes, "bytes:4-12M")
+		rr.classes = append(rr.classes, "bytes:4-12M")
 	default:
-		classes = append(classes, "bytes:12M+")
+		rr.classes = append(rr.classes, "bytes:12M+")
 	}
-	var lenient []string
 
-	fail := func(format string, a ...any) (ev.Outcome, bool) {
-		o := ev.Failf("[class %s, %d pods, %d containers, %d bytes unsplit] "+format,
-			append([]any{sh.Class, len(pods), len(ctrs), sh.Whole}, a...)...)
+	snapshot := func() {
 		obs.mu.Lock()
 		hist.Chunks, hist.RPCs, hist.Calls, hist.GotPods, hist.GotCtrs = obs.chunks, obs.rpcs, obs.calls, obs.gotP, obs.gotC
-		hist.SentPods, hist.SentCtrs = obs.sumP, obs.sumC
+		hist.SentPods, hist.SentCtrs, hist.MoreDone, hist.AbortedAt = obs.sumP, obs.sumC, obs.moreDone, obs.abortedAt
 		obs.mu.Unlock()
-		o.History = hist
-		o.Classes = classes
-		o.NonTrivial = sh.Class != "a"
-		return o, false
+	}
+	fail := func(format string, a ...any) roundResult {
+		rr.out = ev.Failf("[round %d, class %s, %d pods, %d containers, %d bytes unsplit] "+format,
+			append([]any{idx + 1, sh.Class, len(pods), len(ctrs), sh.Whole}, a...)...)
+		snapshot()
+		return rr
+	}
+	failTime := func(format string, a ...any) roundResult {
+		fail(format, a...)
+		rr.timeClause = true
+		return rr
+	}
+	notJudged := func(why string) roundResult {
+		snapshot()
+		rr.out = ev.Outcome{Excluded: why, Overloaded: true}
+		return rr
 	}
 
-	// --- the plugin under observation -------------------------------------------------
-	p := &fx.Plugin{Name: name, Idx: "10"}
-	p.OnSynchronize = func(_ context.Context, gp []*api.PodSandbox, gc []*api.Container) ([]*api.ContainerUpdate, error) {
-		d := diffState(pods, gp, ctrs, gc)
-		obs.mu.Lock()
-		obs.calls++
-		if obs.calls == 1 || obs.diff == "" {
-			obs.diff, obs.gotP, obs.gotC = d, len(gp), len(gc)
-		}
-		obs.mu.Unlock()
-		return want, nil
-	}
-	p.OnEvent = func(_ context.Context, _ api.Event, pod *api.PodSandbox, _ *api.Container) error {
-		if fx.IsProbe(pod) {
-			f.w.Seen(name)
-		}
-		return nil
-	}
+	// --- register --------------------------------------------------------------------------
 	s := &slot{pods: pods, ctrs: ctrs, rtFail: c.RuntimeFails, done: make(chan struct{})}
 	if !noAbort {
 		obs.onStuck = s.abort
 	}
+	obs.onAbort = s.abort
+	obs.roundDone = s.done
+	se.cur.Store(obs)
+	defer se.cur.Store(nil)
 	f.expect(s)
-	if err := p.NewStub(f.r.Socket, nil, stub.WithTTRPCOptions(nil,
-		[]ttrpc.ServerOpt{ttrpc.WithUnaryServerInterceptor(obs.intercept)})); err != nil {
-		f.expect(nil)
-		return ev.Outcome{Excluded: "stub: " + err.Error(), Overloaded: true}, false
-	}
-	stopped := false
-	stopMain := func() {
-		if !stopped {
-			stopped = true
-			p.Stub.Stop()
-		}
-	}
-	defer stopMain()
+	base := f.w.Count(name) // probe events seen in earlier rounds
+	p := se.p
+
 	// Start returns once the plugin is configured - or with an error when the adaptation has
 	// already closed the connection: a synchronization that fails at once (a state that is
 	// refused without sending anything) can be over before the stub has seen the reply to
 	// its registration request. That is a legitimate face of "registration fails", so the
 	// verdict is taken from the runtime's side below and Start's error only recorded.
 	startErr := p.Stub.Start(context.Background())
+	se.starts++
+	// whatever happens, the session is ended before the next round (or the end of the case)
+	defer func() {
+		p.Stub.Stop()
+		// the close notification of every session so far (Start is callable again as soon as
+		// Stop returned; a late notification of an old session is ignored by the stub)
+		deadline := time.Now().Add(5 * time.Second)
+		for p.Closed.Load() < se.starts && time.Now().Before(deadline) {
+			time.Sleep(200 * time.Microsecond)
+		}
+		_ = f.r.Probe() // lets the adaptation drop the closed plugin
+	}()
 	if startErr != nil {
-		hist.Note = "stub.Start: " + startErr.Error()
+		hist.StartErr = startErr.Error()
 		select {
 		case <-s.done:
 		case <-time.After(10 * time.Second):
@@ -767,7 +1010,7 @@ func runOnce(c C09Case) (ev.Outcome, bool) {
 			select {
 			case <-s.done: // it did after all, between the timer and expect(nil)
 			default:
-				return ev.Outcome{Excluded: "registration-did-not-reach-sync", Overloaded: true, Classes: classes}, false
+				return notJudged("registration-did-not-reach-sync")
 			}
 		}
 	}
@@ -780,8 +1023,7 @@ func runOnce(c C09Case) (ev.Outcome, bool) {
 		f.abandon()
 		buf := make([]byte, 1<<20)
 		hist.Note = string(buf[:runtime.Stack(buf, true)])
-		o, _ := fail("synchronization neither completed nor failed %v after the plugin registered (request timeout %v)", reqTimeout+70*time.Second, reqTimeout)
-		return o, true
+		return failTime("synchronization neither completed nor failed %v after the plugin registered (request timeout %v)", reqTimeout+70*time.Second, reqTimeout)
 	}
 	hist.ElapsedMs = s.elapsed.Milliseconds()
 	if s.err != nil {
@@ -795,8 +1037,12 @@ func runOnce(c C09Case) (ev.Outcome, bool) {
 	}
 
 	obs.mu.Lock()
-	calls, diff := obs.calls, obs.diff
+	calls, diff, stuck, abortedAt, moreDone := obs.calls, obs.diff, obs.stuck, obs.abortedAt, obs.moreDone
 	obs.mu.Unlock()
+	stale := ""
+	if se.failedAfterChunks {
+		stale = " (an earlier registration of this stub failed after it had accepted part of a split state)"
+	}
 
 	delivered := false // exact delivery established
 	switch {
@@ -809,34 +1055,36 @@ func runOnce(c C09Case) (ev.Outcome, bool) {
 			return fail("synchronization succeeded but the plugin's handler was invoked %d times, not once", calls)
 		}
 		if diff != "" {
-			return fail("synchronization succeeded but the handler did not get the runtime's state: %s", diff)
+			return fail("synchronization succeeded but the handler did not get the runtime's state%s: %s", stale, diff)
 		}
 		if d := diffUpdates(want, s.updates); d != "" {
 			return fail("the plugin's updates did not reach the runtime's sync callback: %s", d)
 		}
 		delivered = true
 		if sh.Class == "c" {
-			lenient = append(lenient, "c-delivered")
+			rr.lenient = append(rr.lenient, "c-delivered")
 		}
-	case sh.Class == "c":
-		// "If the state cannot be transmitted, registration fails cleanly": no handler call
-		// with a partial state.
+	case abortedAt > 0 || sh.Class == "c":
+		// The runtime gave up mid-way (its context was cancelled by the harness after the
+		// stub had accepted abortedAt chunks), or the state cannot be transmitted: "registration
+		// fails cleanly" - no handler call with a partial state.
 		if calls > 0 && diff != "" {
 			return fail("synchronization failed (%v) after the handler was invoked %d time(s) with a partial state: %s", s.err, calls, diff)
 		}
 		if calls > 1 {
 			return fail("synchronization failed (%v) after the handler was invoked %d times", s.err, calls)
 		}
-		lenient = append(lenient, "c-refused")
-		if startErr != nil {
-			lenient = append(lenient, "c-refused-before-start-returned")
+		if abortedAt > 0 {
+			rr.classes = append(rr.classes, "runtime-aborted")
+		} else {
+			rr.lenient = append(rr.lenient, "c-refused")
+			if startErr != nil {
+				rr.lenient = append(rr.lenient, "c-refused-before-start-returned")
+			}
 		}
 	default:
 		// class (a)/(b): every message the sender can form at its floor fits, so the state
 		// can be transmitted and must be.
-		obs.mu.Lock()
-		stuck := obs.stuck
-		obs.mu.Unlock()
 		if stuck != "" {
 			return fail("registration failed (%v) although every run of <=8 pods plus <=8 containers fits one message (largest: %d bytes): the sender stopped making progress (%s); the harness cut the transfer short, it would have ended at the %v request timeout",
 				s.err, sh.Worst, stuck, reqTimeout)
@@ -855,28 +1103,35 @@ func runOnce(c C09Case) (ev.Outcome, bool) {
 				return fail("registration failed (%v) although every run of <=8 pods plus <=8 containers fits one message (largest: %d bytes): until the %v request timeout the sender transmitted %d pods and %d containers, more than the runtime holds",
 					s.err, sh.Worst, reqTimeout, sp, sc)
 			}
-			o, _ := fail("registration failed after %v (%v); the request timeout of %v may have expired because of load", s.elapsed, s.err, reqTimeout)
-			return o, true
+			return failTime("registration failed after %v (%v); the request timeout of %v may have expired because of load", s.elapsed, s.err, reqTimeout)
 		}
 		return fail("registration failed (%v) although every run of <=8 pods plus <=8 containers fits one message (largest such message: %d bytes, limit %d)",
 			s.err, sh.Worst, msgMax)
+	}
+	if c.AbortAfter > 0 && abortedAt == 0 {
+		rr.classes = append(rr.classes, "abort-not-reached")
+	}
+	if !delivered && moreDone > 0 {
+		rr.classes = append(rr.classes, "failed-after-chunks")
+	}
+	if delivered && se.failedAfterChunks {
+		rr.classes = append(rr.classes, "resync-after-failed-split")
 	}
 
 	// --- activation ------------------------------------------------------------------------
 	expectActive := delivered && !c.RuntimeFails
 	if expectActive {
 		if err := f.r.WaitActive(f.w, 10*time.Second, name); err != nil {
-			o, _ := fail("synchronization succeeded but the plugin is not active: %v", err)
-			return o, true
+			return failTime("synchronization succeeded but the plugin is not active: %v", err)
 		}
 	}
 
 	// --- the adaptation keeps serving: a small plugin registers and a request succeeds ------
-	fname := fmt.Sprintf("after%d", id)
+	fname := fmt.Sprintf("after%d-%d", se.id, idx+1)
 	fpods := []*api.PodSandbox{{Id: "fp0", Name: "follow-up"}}
 	fctrs := []*api.Container{{Id: "fc0", PodSandboxId: "fp0", Name: "follow-up"}}
 	var fmu sync.Mutex
-	fcalls, fdiff, fcreates := 0, "", 0
+	fcalls, fdiff := 0, ""
 	fp := &fx.Plugin{Name: fname, Idx: "20"}
 	fp.OnSynchronize = func(_ context.Context, gp []*api.PodSandbox, gc []*api.Container) ([]*api.ContainerUpdate, error) {
 		fmu.Lock()
@@ -892,9 +1147,6 @@ func runOnce(c C09Case) (ev.Outcome, bool) {
 		return nil
 	}
 	fp.OnCreate = func(_ context.Context, _ *api.PodSandbox, ctr *api.Container) (*api.ContainerAdjustment, []*api.ContainerUpdate, error) {
-		fmu.Lock()
-		fcreates++
-		fmu.Unlock()
 		a := &api.ContainerAdjustment{}
 		a.AddAnnotation("verif/seen-by", fname)
 		return a, nil, nil
@@ -904,16 +1156,14 @@ func runOnce(c C09Case) (ev.Outcome, bool) {
 	if err := f.r.Connect(fp); err != nil {
 		// (re-executed: registration has its own timeouts, which a loaded machine can hit)
 		f.expect(nil)
-		o, _ := fail("after this synchronization the adaptation no longer accepts plugins: %v", err)
-		return o, true
+		return failTime("after this synchronization the adaptation no longer accepts plugins: %v", err)
 	}
 	defer fp.Stub.Stop()
 	select {
 	case <-fs.done:
 	case <-time.After(reqTimeout + 70*time.Second):
 		f.abandon()
-		o, _ := fail("after this synchronization a small plugin's registration did not complete within %v", reqTimeout+70*time.Second)
-		return o, true
+		return failTime("after this synchronization a small plugin's registration did not complete within %v", reqTimeout+70*time.Second)
 	}
 	if fs.panicked != "" || fs.err != nil {
 		return fail("after this synchronization a small plugin could not be synchronized: err=%v panic=%s", fs.err, fs.panicked)
@@ -925,12 +1175,11 @@ func runOnce(c C09Case) (ev.Outcome, bool) {
 		return fail("after this synchronization a small plugin's handler was invoked %d times / got a wrong state: %s", fc, fd)
 	}
 	if err := f.r.WaitActive(f.w, 10*time.Second, fname); err != nil {
-		o, _ := fail("after this synchronization a small plugin did not become active: %v", err)
-		return o, true
+		return failTime("after this synchronization a small plugin did not become active: %v", err)
 	}
 	rpl, err := f.r.A.CreateContainer(context.Background(), &api.CreateContainerRequest{
 		Pod:       &api.PodSandbox{Id: "fp0"},
-		Container: &api.Container{Id: fmt.Sprintf("new%d", id), PodSandboxId: "fp0"},
+		Container: &api.Container{Id: fmt.Sprintf("new%d-%d", se.id, idx+1), PodSandboxId: "fp0"},
 	})
 	if err != nil {
 		return fail("after this synchronization a CreateContainer request failed: %v", err)
@@ -949,7 +1198,7 @@ func runOnce(c C09Case) (ev.Outcome, bool) {
 				return fail("probe event failed: %v", err)
 			}
 		}
-		if n := f.w.Count(name); n != 0 {
+		if n := f.w.Count(name) - base; n != 0 {
 			return fail("the plugin was activated although its synchronization failed (sync error: %v, runtime-side failure: %v): it received %d probe events",
 				s.err, c.RuntimeFails, n)
 		}
@@ -969,30 +1218,28 @@ func runOnce(c C09Case) (ev.Outcome, bool) {
 	if delivered && calls != 1 {
 		return fail("the plugin's handler was invoked %d times, not once", calls)
 	}
-
-	// clean up: stop both stubs and let the adaptation notice.
-	stopMain()
-	fp.Stub.Stop()
-	_ = f.r.Probe()
+	if !delivered && moreDone > 0 {
+		se.failedAfterChunks = true
+	}
+	snapshot()
 
 	switch {
 	case nchunks <= 1:
-		classes = append(classes, "msgs:1")
+		rr.classes = append(rr.classes, "msgs:1")
 	case nchunks <= 4:
-		classes = append(classes, "msgs:2-4")
+		rr.classes = append(rr.classes, "msgs:2-4")
 	case nchunks <= 16:
-		classes = append(classes, "msgs:5-16")
+		rr.classes = append(rr.classes, "msgs:5-16")
 	default:
-		classes = append(classes, "msgs:17+")
+		rr.classes = append(rr.classes, "msgs:17+")
 	}
 	if floor {
-		classes = append(classes, "chunk-at-floor")
+		rr.classes = append(rr.classes, "chunk-at-floor")
 	}
 	if delivered && nchunks > 1 {
-		classes = append(classes, "delivered-split")
+		rr.classes = append(rr.classes, "delivered-split")
 	}
-	classes = append(classes, lenient...)
-	return ev.Outcome{NonTrivial: sh.Class != "a", Classes: classes, Lenient: lenient}, false
+	return rr
 }
 
 func TestProp_C09(t *testing.T) { ev.Run(t, "C09", genC09, runC09) }
@@ -1004,9 +1251,10 @@ func uniform(n, size int) ListPlan { return ListPlan{N: n, Dist: "uniform", Base
 
 func sweepCases() []C09Case {
 	var out []C09Case
-	add := func(p, c ListPlan) {
-		out = append(out, C09Case{Pods: p, Ctrs: c, Updates: []UpdPlan{{Ctr: 0, Shares: 7, Mem: 1 << 20}}})
+	round := func(p, c ListPlan) Round {
+		return Round{Pods: p, Ctrs: c, Updates: []UpdPlan{{Ctr: 0, Shares: 7, Mem: 1 << 20}}}
 	}
+	add := func(p, c ListPlan) { out = append(out, C09Case{Round: round(p, c)}) }
 	none := ListPlan{Dist: "none"}
 	add(none, none)
 	add(uniform(1, 0), none)
@@ -1037,6 +1285,24 @@ func sweepCases() []C09Case {
 	out[len(out)-1].RuntimeFails = true
 	add(uniform(3, 100), uniform(40, 300000))
 	out[len(out)-1].RuntimeFails = true
+
+	// --- histories: the same stub registers again -----------------------------------------
+	aborted := func(r Round, after int) Round { r.AbortAfter = after; return r }
+	tail := ListPlan{N: 104, Dist: "tailblock", Base: 100000, Over: []At{{100, 1200000}, {101, 1200000}, {102, 1200000}, {103, 1200000}}}
+	// refused after chunks were accepted (the tail cannot be sent), then a transmissible state
+	out = append(out, C09Case{Round: round(uniform(1, 0), tail), Next: []Round{round(uniform(1, 0), uniform(100, 1000))}})
+	out = append(out, C09Case{Round: round(tail, uniform(3, 10)), Next: []Round{round(uniform(2, 10), uniform(60, 100000))}})
+	// the runtime gives up after 1, 2, 3 chunks, then delivers
+	out = append(out, C09Case{Round: aborted(round(uniform(1, 0), uniform(100, 100000)), 1), Next: []Round{round(uniform(2, 10), uniform(3, 10))}})
+	out = append(out, C09Case{Round: aborted(round(uniform(300, 100000), uniform(5, 10)), 2),
+		Next: []Round{round(uniform(4, 100), uniform(90, 100000)), round(uniform(1, 0), uniform(1, 0))}})
+	out = append(out, C09Case{Round: aborted(round(uniform(20, 1000), uniform(2000, 10000)), 3),
+		Next: []Round{aborted(round(uniform(20, 1000), uniform(2000, 10000)), 1), round(uniform(20, 1000), uniform(2000, 10000))}})
+	// nothing is left behind by a successful split transfer or by a runtime-side failure either
+	out = append(out, C09Case{Round: round(uniform(3, 100), uniform(50, 200000)), Next: []Round{round(uniform(5, 100), uniform(70, 150000)), round(none, none)}})
+	rf := round(uniform(3, 100), uniform(50, 200000))
+	rf.RuntimeFails = true
+	out = append(out, C09Case{Round: rf, Next: []Round{round(uniform(3, 100), uniform(50, 200000))}})
 	return out
 }
 
